@@ -71,8 +71,10 @@ TargetsY2L(ts) ==
                 IN [n \in 1..Len(mine) |-> [deg |-> mine[n].deg, v |-> LV(mine[n].v)]]
   IN [pch |-> of("pch"), psd |-> of("psd"), psw |-> of("psw")]
 
-BandsL2Y(bs) == [i \in 1..Len(bs) |-> [f_min |-> YV("f_min", bs[i].f_min), f_max |-> YV("f_max", bs[i].f_max)]]
-BandsY2L(bs) == [i \in 1..Len(bs) |-> [f_min |-> LV(bs[i].f_min), f_max |-> LV(bs[i].f_max)]]
+\* a design band: its edges and, optionally, the channel spacing the design must assume in it
+BandsL2Y(bs) == [i \in 1..Len(bs) |-> [f_min |-> YV("f_min", bs[i].f_min), f_max |-> YV("f_max", bs[i].f_max),
+                                       spacing |-> YV("spacing", bs[i].spacing)]]
+BandsY2L(bs) == [i \in 1..Len(bs) |-> [f_min |-> LV(bs[i].f_min), f_max |-> LV(bs[i].f_max), spacing |-> LV(bs[i].spacing)]]
 \* per_degree_design_bands {deg: [bands]}  <->  per_degree_design_bands_targets [{degree_uid, design_bands}]
 DegBandsL2Y(db) == [i \in 1..Len(db) |-> [deg |-> db[i].deg, bands |-> BandsL2Y(db[i].bands)]]
 DegBandsY2L(db) == [i \in 1..Len(db) |-> [deg |-> db[i].deg, bands |-> BandsY2L(db[i].bands)]]
@@ -249,6 +251,14 @@ Shape(x) ==
 RoundTrip(d)          == Y2L(L2Y(d)) = d
 Idempotent(d)         == L2Y(Y2L(L2Y(d))) = L2Y(d)
 StructurePreserved(d) == Shape(L2Y(d)) = Shape(d) /\ Shape(Y2L(L2Y(d))) = Shape(d)
+\* A YANG list keyed by a leaf is unordered: whoever writes the YANG form by hand may list the entries in any order.
+\* Y2L is defined through the key (NfY2L picks each coefficient by its coef_order), so it gives the same legacy
+\* document for every order; Reordered(y) is the reversal of the keyed lists of the vocabulary.
+RECURSIVE Rev(_)
+Rev(s) == IF s = <<>> THEN <<>> ELSE Append(Rev(Tail(s)), Head(s))
+Reordered(y) == IF y.kind = "equipment" THEN [y EXCEPT !.edfa.nf_coef = Rev(@)] ELSE y
+KeyedListOrderIrrelevant(d) == Y2L(Reordered(L2Y(d))) = d
+
 \* alias clause, stated on an OBSERVED library `lib` (a set of [cat, key, reports, pid]: the entry found under
 \* `key` reports the name `reports` and carries the parameter set number `pid`): every name of a declared entry is
 \* a key, the entry under it reports that very name, and all names of one declared entry share one parameter set
